@@ -41,7 +41,6 @@ void ares_cancel(ares_channel_t *channel)
 
   if (ares_llist_len(channel->all_queries) > 0) {
     ares_llist_node_t *node = NULL;
-    ares_llist_node_t *next = NULL;
 
     /* Swap list heads, so that only those queries which were present on entry
      * into this function are cancelled. New queries added by callbacks of
@@ -57,21 +56,26 @@ void ares_cancel(ares_channel_t *channel)
       goto done;                        /* LCOV_EXCL_LINE: OutOfMemory */
     }
 
-    node = ares_llist_node_first(list_copy);
-    while (node != NULL) {
-      ares_query_t *query;
-
-      /* Cache next since this node is being deleted */
-      next = ares_llist_node_next(node);
+    /* Always take the first remaining node: a callback may re-enter the library
+     * and complete (and release) other queries of this list, so no node
+     * pointer may be held across a callback. */
+    while ((node = ares_llist_node_first(list_copy)) != NULL) {
+      ares_query_t        *query;
+      ares_callback_dnsrec callback;
+      void                *arg;
 
       query                   = ares_llist_node_claim(node);
       query->node_all_queries = NULL;
 
-      /* NOTE: its possible this may enqueue new queries */
-      query->callback(query->arg, ARES_ECANCELLED, 0, NULL);
+      /* Detach the query from every index and release it before invoking the
+       * callback, otherwise a re-entrant call made by the callback could find,
+       * complete and free this query a second time. */
+      callback = query->callback;
+      arg      = query->arg;
       ares_free_query(query);
 
-      node = next;
+      /* NOTE: its possible this may enqueue new queries */
+      callback(arg, ARES_ECANCELLED, 0, NULL);
     }
 
     ares_llist_destroy(list_copy);
